@@ -22,11 +22,17 @@ def run(rep, tier):
     rep.rule("R-OBS-FIELDS", "Options::t_eval / dense_output are read only in solve_ivp and reach only the output handler and the ContinuousOutput gating")
     H.r_teval_verbatim(rep, hc)
     H.r_teval_window(rep, hc)
+    rep.rule("R-DIR-MIRROR", "every `if forward { A } else { B }` comparison pair of time points in the handler is symmetric under time reflection")
+    H.r_dir_mirror(rep, hc)
+    rep.rule("R-TIME-MINMAX", "time points in the output handler are never ordered with a bare min/max/clamp (direction-dependent): only sorted pairs or under a direction test")
+    H.r_time_minmax(rep, hc)
     H.r_nextidx_mono(rep, hc)
     H.r_teval_before_interrupt(rep, hc)
     H.r_term(rep, hc)
     H.r_push_pair(rep, hc)
     obs.r_obs_fields(rep, f)
+    rep.rule("R-TEVAL-PASSTHROUGH", "solve_ivp hands Options::t_eval to the output handler unmodified (clones / reborrows only: no sort, reverse, filter or map)")
+    obs.r_teval_passthrough(rep, f)
     rep.explanation = ("Structural, all paths: provenance of every (time, state) pair the default output handler reports in t_eval mode, "
                        "monotone cursor, sampling before a terminal return, terminal point last, independence from dense_output. "
                        "Not decided: which t_eval[i] fall inside [xold-tol, x+tol] (float comparisons on run-time data); interpolant accuracy (C07).")
